@@ -52,7 +52,7 @@ def lossless(seed, n):
     r = random.Random(seed)
     out = [b"%s", b"x%s", b"%Y-%m-%d%ET%H:%M:%E*S%E*z", b"%Y-%m-%dT%H:%M:%S.%E15f%::z"]
     for _ in range(n):
-        year = r.choice([b"%Y", b"%Y", b"%E4Y"])
+        year = r.choice([b"%Y", b"%Y", b"%E4Y", b"%Y", b"%EY"])
         date = r.choice([[b"%m", b"%d"], [b"%m", b"%e"], [b"%U", b"%w"], [b"%W", b"%u"], [b"%U", b"%u"], [b"%W", b"%w"],
                          [b"%b", b"%d"], [b"%B", b"%e"], [b"%m", b"%d", b"%a"], [b"%h", b"%d", b"%A"],
                          [b"%U", b"%a"], [b"%W", b"%A"], [b"%U", b"%A"], [b"%W", b"%a"]])
